@@ -67,6 +67,10 @@ def _hook(event, args):
             e["existed"] = False
         if w and not _inside_root(path):
             e["blocked"] = True         # safety net: nothing is ever written outside the scratch tree
+            try:                        # would the kernel have created the file?
+                e["parent_exists"] = os.path.isdir(os.path.dirname(path) or ".")   # kernel semantics, not lexical
+            except (ValueError, OSError):
+                e["parent_exists"] = False
         _rec["on"] = True
     else:
         e["args"] = [a if isinstance(a, (str, int, type(None))) else repr(a)[:200] for a in args[:3]]
